@@ -1,12 +1,32 @@
 /-
   Proofs.RefineMisc — constructors, client writes, `discard_freelist`, `set_minimum_segment_size`,
   `increase_discarded`, `clear`, `truncate` preserve the concrete invariant and track the abstract state.
-  (statement file: every `sorry` below is a proof obligation)
 -/
 import RarenaVerif.Proofs.RefineDefs
 import RarenaVerif.Proofs.SpecWF
 
 namespace Rarena
+
+private theorem dataOffset_pos (o : Opts) : 1 ≤ o.dataOffset := by
+  unfold Opts.dataOffset dataOffsetUnify dataOffsetPlain headerOffset HEADER_SIZE
+  split <;> omega
+
+private theorem rd_replicate_zero (n i : Nat) : Mem.rd (Array.replicate n (0 : UInt8)) i = 0 := by
+  unfold Mem.rd
+  by_cases h : i < n
+  · simp [h]
+  · simp [h]
+
+private theorem size_writeSanity (m : Mem) (r : Nat) (k : Kind) (mg : Nat) : (writeSanity m r k mg).size = m.size := by
+  simp [writeSanity]
+
+private theorem rd_writeSanity_out (m : Mem) (r : Nat) (k : Kind) (mg : Nat) (i : Nat) (h : r + 8 ≤ i) :
+    (writeSanity m r k mg).rd i = m.rd i := by
+  unfold writeSanity Mem.writeLE
+  simp only []
+  rw [Mem.rd_update_out _ _ _ _ _ (by omega), Mem.rd_update_out _ _ _ _ _ (by omega),
+    Mem.rd_update_out _ _ _ _ _ (by omega), Mem.rd_update_out _ _ _ _ _ (by omega),
+    Mem.rd_update_out _ _ _ _ _ (by omega)]
 
 /-- a freshly constructed arena (Vec, anonymous map, newly created file) satisfies the invariant with an
     empty free list and no handles, and represents `A.fresh` -/
@@ -14,33 +34,88 @@ theorem init_cinv (o : Opts) (s : St) (h : o.init = some s) (hcap : o.cap + 8192
     (hms : o.minSeg < TWO32) (hr : 1 ≤ o.retries ∧ o.retries ≤ 255) :
     CInv o.cfg s [] [] ∧ s.abs [] = A.fresh o.cap o.dataOffset o.minSeg ∧ s.cap = o.cap ∧
     (∀ i, o.dataOffset ≤ i → s.mem.rd i = 0) := by
-  sorry
+  unfold Opts.init at h
+  split at h
+  · cases h
+  · rename_i hle
+    obtain ⟨mem, se, al, ms, di⟩ := s
+    simp only [Option.some.injEq, St.mk.injEq] at h
+    obtain ⟨hm, rfl, rfl, rfl, rfl⟩ := h
+    have hsz : mem.size = o.cap := by
+      rw [← hm]; split <;> simp [size_writeSanity]
+    have habs : St.abs ⟨mem, SENTINEL_WORD, o.dataOffset, o.minSeg, 0⟩ [] = A.fresh o.cap o.dataOffset o.minSeg := by
+      simp only [St.abs, St.cap, A.fresh, hsz]
+    refine ⟨⟨?_, trivial, rfl, ?_, hms, fun _ => hr⟩, habs, hsz, ?_⟩
+    · rw [habs]
+      exact WF.fresh o.cfg o.cap o.minSeg (dataOffset_pos o) (by show o.dataOffset ≤ o.cap; omega)
+    · show mem.size + 8192 ≤ TWO32
+      rw [hsz]; exact hcap
+    · intro i hi
+      show Mem.rd mem i = 0
+      rw [← hm]
+      by_cases hu : o.unified = true
+      · rw [if_pos hu, rd_writeSanity_out, rd_replicate_zero]
+        unfold Opts.dataOffset at hi
+        rw [if_pos hu] at hi
+        unfold dataOffsetUnify headerOffset HEADER_SIZE at hi
+        omega
+      · rw [if_neg hu, rd_replicate_zero]
 
 /-- construction is refused exactly when the prefix does not fit -/
 theorem init_none_iff (o : Opts) : o.init = none ↔ o.cap < o.dataOffset := by
-  sorry
+  unfold Opts.init
+  split
+  · simp; omega
+  · simp; omega
+
+
+/-- a byte range inside a live extent misses every node word (indeed every byte) of the free segments -/
+theorem misses_of_live {c : Cfg} {a : A} {lives : List Ext} (hw : WF c a lives) (e : Ext) (he : e ∈ lives)
+    (lo hi : Nat) (h1 : e.1 ≤ lo) (h2 : hi ≤ e.2) : MissesNodes lo hi a.free := by
+  intro g hg
+  have hd := hw.disjoint
+  rw [List.pairwise_append] at hd
+  have := hd.2.2 g.ext (List.mem_map_of_mem hg) e he
+  unfold disj at this
+  simp only [Seg.ext, Seg.lo, Seg.hi, NODE] at this
+  omega
 
 /-- a client writing through a handle (any bytes inside an extent of `lives`) keeps the invariant -/
 theorem fill_cinv (c : Cfg) (s : St) (free : List Seg) (lives : List Ext) (e : Ext) (off len : Nat) (b : UInt8)
     (h : CInv c s free lives) (he : e ∈ lives) (h1 : e.1 ≤ off) (h2 : off + len ≤ e.2) :
     CInv c { s with mem := s.mem.fill off len b } free lives := by
-  sorry
+  have habs : St.abs { s with mem := s.mem.fill off len b } free = s.abs free := by
+    simp only [St.abs, St.cap, Mem.size_fill]
+  refine ⟨?_, ?_, h.sent, ?_, h.minSegLt, h.retriesOK⟩
+  · rw [habs]; exact h.wf
+  · exact Chain.fill free off len b (misses_of_live h.wf e he _ _ h1 h2) h.chain
+  · have := h.capGuard
+    simpa only [St.cap, Mem.size_fill] using this
 
 theorem setMinSeg_cinv (c : Cfg) (s : St) (free : List Seg) (lives : List Ext) (n : Nat)
     (h : CInv c s free lives) (hn : n < TWO32) : CInv c (setMinSeg c s n) free lives := by
-  sorry
+  unfold setMinSeg
+  split
+  · exact h
+  · have hw := h.wf
+    exact ⟨⟨hw.segs, hw.sorted, hw.disjoint, hw.lives_in, hw.lo, hw.mid, hw.hi, hw.none_empty, hw.disc⟩,
+      h.chain, h.sent, h.capGuard, hn, h.retriesOK⟩
+
+theorem incDiscarded_abs (c : Cfg) (s : St) (free : List Seg) (n : Nat) :
+    (s.incDiscarded c n).abs free = (s.abs free).incDiscarded c n := by
+  unfold St.incDiscarded A.incDiscarded
+  split <;> rfl
 
 theorem incDiscarded_cinv (c : Cfg) (s : St) (free : List Seg) (lives : List Ext) (n : Nat)
     (h : CInv c s free lives) :
     CInv c (s.incDiscarded c n) free lives ∧ (s.incDiscarded c n).abs free = (s.abs free).incDiscarded c n := by
-  sorry
-
-/-- `discard_freelist` returns the abstract answer, empties the list, only writes node words of free segments -/
-theorem discardFreelist_refines (c : Cfg) (s : St) (free : List Seg) (lives : List Ext) (fuel : Nat)
-    (h : CInv c s free lives) (hfuel : free.length + 2 ≤ fuel) :
-    let r := (s.abs free).discardFreelist c
-    ∃ s', discardFreelist c s fuel = .ok (r.1, s') ∧ StepOK c s s' r.2 lives ∧ CInv c s' r.2.free lives := by
-  sorry
+  refine ⟨?_, incDiscarded_abs c s free n⟩
+  refine ⟨?_, ?_, ?_, ?_, ?_, h.retriesOK⟩
+  · rw [incDiscarded_abs]; exact h.wf.incDiscarded n
+  · unfold St.incDiscarded; split <;> exact h.chain
+  · unfold St.incDiscarded; split <;> exact h.sent
+  · unfold St.incDiscarded; split <;> exact h.capGuard
+  · unfold St.incDiscarded; split <;> exact h.minSegLt
 
 /-- `clear` makes the arena pristine: it represents `A.fresh` with the minimum segment size in force, the data
     area is zero and the prefix is untouched -/
@@ -48,10 +123,53 @@ theorem clear_refines (c : Cfg) (s : St) (free : List Seg) (lives : List Ext) (h
     (hro : c.ro = false) :
     ∃ s', clear c s = .ok s' ∧ CInv c s' [] [] ∧ s'.abs [] = A.fresh s.cap c.dataOffset s.minSeg ∧
       PrefixIntact c s s' ∧ s'.mem.size = s.mem.size ∧ (∀ i, c.dataOffset ≤ i → s'.mem.rd i = 0) := by
-  sorry
+  have hw := h.wf
+  have hmid : c.dataOffset ≤ s.cap := Nat.le_trans hw.mid hw.hi
+  refine ⟨_, by unfold clear; rw [hro]; rfl, ?_, ?_, ?_, ?_, ?_⟩
+  · refine ⟨?_, trivial, rfl, ?_, h.minSegLt, h.retriesOK⟩
+    · have : St.abs ⟨s.mem.zero c.dataOffset (s.cap - c.dataOffset), SENTINEL_WORD, c.dataOffset, s.minSeg, 0⟩ [] =
+          A.fresh s.cap c.dataOffset s.minSeg := by
+        simp only [St.abs, St.cap, A.fresh, Mem.size_zero]
+      rw [this]
+      exact WF.fresh c s.cap s.minSeg hw.lo hmid
+    · have := h.capGuard
+      simpa only [St.cap, Mem.size_zero] using this
+  · simp only [St.abs, St.cap, A.fresh, Mem.size_zero]
+  · intro i hi
+    exact Mem.rd_zero_out _ _ _ _ (Or.inl hi)
+  · simp
+  · intro i hi
+    show (s.mem.zero c.dataOffset (s.cap - c.dataOffset)).rd i = 0
+    by_cases hlt : i < s.cap
+    · exact Mem.rd_zero_in _ _ _ _ hi (by omega)
+    · exact Mem.rd_oob _ _ (by simp only [Mem.size_zero]; unfold St.cap at hlt; omega)
 
 theorem clear_ro (c : Cfg) (s : St) (hro : c.ro = true) : clear c s = .error .readOnly := by
-  sorry
+  unfold clear; rw [hro]; rfl
+
+theorem truncate_ro (c : Cfg) (s : St) (n : Nat) (hro : c.ro = true) : truncate c s n = .error .readOnly := by
+  unfold truncate; rw [hro]; rfl
+
+private theorem Chain.congr' {m m' : Mem} (l : List Seg) (hb : ∀ g ∈ l, g.off + 8 ≤ m'.size)
+    (hw : ∀ g ∈ l, m'.readWord g.off = m.readWord g.off) (h : Chain m l) : Chain m' l := by
+  induction l with
+  | nil => trivial
+  | cons g rest ih =>
+    refine ⟨hb g List.mem_cons_self, ?_, ih (fun x hx => hb x (List.mem_cons_of_mem _ hx))
+      (fun x hx => hw x (List.mem_cons_of_mem _ hx)) h.2.2⟩
+    rw [hw g List.mem_cons_self]; exact h.2.1
+
+private theorem rd_ofFn (k : Nat) (f : Fin k → UInt8) (i : Nat) (hi : i < k) : Mem.rd (Array.ofFn f) i = (f ⟨i, hi⟩).toNat := by
+  unfold Mem.rd
+  simp [hi]
+
+private theorem rd_truncMem (c : Cfg) (s : St) (k : Nat) (i : Nat) (hi : i < s.allocated) (hk : s.allocated ≤ k) :
+    Mem.rd (Array.ofFn (n := k) (fun i => if i.val < s.allocated ∨ c.fileBacked then s.mem.getD i.val 0 else 0)) i
+      = s.mem.rd i := by
+  rw [rd_ofFn _ _ i (by omega)]
+  simp only [hi, true_or, if_true]
+  unfold Mem.rd
+  simp [Array.getD_eq_getD_getElem?]
 
 /-- `truncate n` sets the capacity to `max n allocated` and changes nothing else -/
 theorem truncate_refines (c : Cfg) (s : St) (free : List Seg) (lives : List Ext) (n : Nat)
@@ -59,9 +177,336 @@ theorem truncate_refines (c : Cfg) (s : St) (free : List Seg) (lives : List Ext)
     ∃ s', truncate c s n = .ok s' ∧ s'.cap = max n s.allocated ∧
       s'.abs free = { s.abs free with cap := max n s.allocated } ∧ CInv c s' free lives ∧
       (∀ i, i < s.allocated → s'.mem.rd i = s.mem.rd i) := by
-  sorry
+  have hw := h.wf
+  have hsize : (if s.allocated ≥ n then s.allocated else n) = max n s.allocated := by
+    split <;> omega
+  have hk : s.allocated ≤ (if s.allocated ≥ n then s.allocated else n) := by split <;> omega
+  have hrd := fun i hi => rd_truncMem c s _ i hi hk
+  have habs : St.abs { s with mem := (Array.ofFn (n := if s.allocated ≥ n then s.allocated else n)
+      (fun i => if i.val < s.allocated ∨ c.fileBacked then s.mem.getD i.val 0 else 0)) } free =
+      { s.abs free with cap := max n s.allocated } := by
+    simp only [St.abs, St.cap, Array.size_ofFn, hsize]
+  refine ⟨_, by unfold truncate; rw [hro]; rfl, ?_, habs, ?_, hrd⟩
+  · simp only [St.cap, Array.size_ofFn, hsize]
+  · refine ⟨?_, ?_, h.sent, ?_, h.minSegLt, h.retriesOK⟩
+    · rw [habs]
+      refine ⟨hw.segs, hw.sorted, hw.disjoint, hw.lives_in, hw.lo, hw.mid, ?_, hw.none_empty, hw.disc⟩
+      show s.allocated ≤ max n s.allocated
+      omega
+    · refine Chain.congr' free ?_ ?_ h.chain
+      · intro g hg
+        have := (hw.segs g hg).2.2.2
+        simp only [Seg.hi, NODE, Array.size_ofFn] at *
+        show g.off + 8 ≤ _
+        simp only [St.abs] at this
+        omega
+      · intro g hg
+        have := (hw.segs g hg).2.2.2
+        simp only [Seg.hi, NODE, St.abs] at this
+        unfold Mem.readWord
+        apply Mem.readLE_congr
+        intro i h1 h2
+        exact hrd i (by omega)
+    · simp only [St.cap, Array.size_ofFn, hsize]; exact hn
 
-theorem truncate_ro (c : Cfg) (s : St) (n : Nat) (hro : c.ro = true) : truncate c s n = .error .readOnly := by
-  sorry
+
+private theorem sum_filter_split (p : Seg → Bool) (l : List Seg) :
+    ((l.filter p).map (·.size)).sum + ((l.filter (fun x => !p x)).map (·.size)).sum = (l.map (·.size)).sum := by
+  induction l with
+  | nil => rfl
+  | cons g rest ih =>
+    by_cases hp : p g = true
+    · simp only [List.filter_cons, hp, if_true, Bool.not_true, Bool.false_eq_true, if_false, List.map_cons,
+        List.sum_cons]
+      omega
+    · have hp' : p g = false := by simpa using hp
+      simp only [List.filter_cons, hp', Bool.false_eq_true, if_false, Bool.not_false, if_true, List.map_cons,
+        List.sum_cons]
+      omega
+
+/-- pairwise disjoint segments inside `[A, B)` have total size at most `B - A` -/
+theorem sum_sizes_le (n : Nat) : ∀ (l : List Seg), l.length ≤ n → ∀ (A B : Nat), A ≤ B →
+    (∀ g ∈ l, A ≤ g.off ∧ g.off + 8 + g.size ≤ B) → l.Pairwise (fun x y => disj x.ext y.ext) →
+    (l.map (·.size)).sum + A ≤ B := by
+  induction n with
+  | zero =>
+    intro l hl A B hAB _ _
+    have : l = [] := List.eq_nil_of_length_eq_zero (by omega)
+    subst this
+    simpa using hAB
+  | succ n ih =>
+    intro l hl A B hAB hin hp
+    cases l with
+    | nil => simpa using hAB
+    | cons g rest =>
+      rw [List.pairwise_cons] at hp
+      obtain ⟨hg, hrest⟩ := hp
+      have hgin := hin g List.mem_cons_self
+      have hlen : rest.length ≤ n := by simp at hl; omega
+      let p : Seg → Bool := fun x => decide (x.off + 8 + x.size ≤ g.off)
+      have h1 := ih (rest.filter p) (Nat.le_trans (List.length_filter_le _ _) hlen) A g.off hgin.1
+        (by
+          intro x hx
+          rw [List.mem_filter] at hx
+          have := hin x (List.mem_cons_of_mem _ hx.1)
+          have h2 : x.off + 8 + x.size ≤ g.off := by simpa [p] using hx.2
+          omega)
+        (List.Pairwise.sublist List.filter_sublist hrest)
+      have h2 := ih (rest.filter (fun x => !p x)) (Nat.le_trans (List.length_filter_le _ _) hlen)
+        (g.off + 8 + g.size) B hgin.2
+        (by
+          intro x hx
+          rw [List.mem_filter] at hx
+          have h3 := hin x (List.mem_cons_of_mem _ hx.1)
+          have h4 : ¬ x.off + 8 + x.size ≤ g.off := by simpa [p] using hx.2
+          have h5 := hg x hx.1
+          unfold disj at h5
+          simp only [Seg.ext, Seg.lo, Seg.hi, NODE] at h5
+          omega)
+        (List.Pairwise.sublist List.filter_sublist hrest)
+      have h3 := sum_filter_split p rest
+      simp only [List.map_cons, List.sum_cons]
+      omega
+
+
+private theorem readWord?_ok (m : Mem) (off : Nat) (h : off + 8 ≤ m.size) : m.readWord? off = pure (m.readWord off) := by
+  unfold Mem.readWord?; rw [if_pos h]
+
+private theorem addU32_ok (site : String) (a b : Nat) (h : a + b < TWO32) : addU32 site a b = pure (a + b) := by
+  unfold addU32; rw [if_pos h]
+
+private theorem casLoc_node_hit (s : St) (off w v : Nat) (hb : off + 8 ≤ s.mem.size) (hw : s.mem.readWord off = w) :
+    s.casLoc (.node off) w v = pure ({ s with mem := s.mem.writeWord off v }, true) := by
+  simp only [St.casLoc, St.readLoc, St.writeLoc, Mem.writeWord?]
+  rw [readWord?_ok _ _ hb, hw]
+  simp only [pure_bind, if_true, if_pos hb]
+
+private theorem casLoc_hdr_hit (s : St) (w v : Nat) (hw : s.sentinel = w) :
+    s.casLoc .hdr w v = pure ({ s with sentinel := v }, true) := by
+  simp only [St.casLoc, St.readLoc, St.writeLoc, pure_bind, hw, if_true]
+
+theorem discardLoop_step_unsync (c : Cfg) (hsync : c.sync = false) (s : St) (g : Seg) (nx acc fuel : Nat)
+    (hs : s.sentinel = enc MAXU32 g.off) (ho1 : 1 ≤ g.off) (ho2 : g.off < MAXU32)
+    (hb : g.off + 8 ≤ s.mem.size) (hw : s.mem.readWord g.off = enc g.size nx) (hnx : nx < TWO32)
+    (hadd : acc + g.size < TWO32) :
+    discardLoop c (fuel + 1) acc s =
+      discardLoop c fuel (acc + g.size) (St.incDiscarded c { s with sentinel := enc MAXU32 nx } g.size) := by
+  have hgl : g.off < TWO32 := by unfold MAXU32 TWO32 at *; omega
+  have h1 : wnext (enc MAXU32 g.off) = g.off := wnext_enc _ _ hgl
+  have h2 : wsize (enc MAXU32 g.off) = MAXU32 := wsize_enc _ _ hgl
+  have h3 : wsize (enc g.size nx) = g.size := wsize_enc _ _ hnx
+  have h4 : wnext (enc g.size nx) = nx := wnext_enc _ _ hnx
+  have hne : g.off ≠ MAXU32 := by omega
+  rw [discardLoop]
+  simp only [hs, h1, h2, hsync, Bool.false_eq_true, false_and, if_false]
+  rw [if_neg (by intro h; exact hne h.2), readWord?_ok _ _ hb, hw]
+  simp only [pure_bind, h3, h4]
+  rw [addU32_ok _ _ _ hadd]
+  simp only [pure_bind]
+
+theorem discardLoop_step_sync (c : Cfg) (hsync : c.sync = true) (s : St) (g : Seg) (nx acc fuel : Nat)
+    (hs : s.sentinel = enc MAXU32 g.off) (ho1 : 1 ≤ g.off) (ho2 : g.off < MAXU32)
+    (hb : g.off + 8 ≤ s.mem.size) (hw : s.mem.readWord g.off = enc g.size nx) (hnx : nx < TWO32)
+    (hsz : 1 ≤ g.size) (hadd : acc + g.size < TWO32) :
+    discardLoop c (fuel + 1) acc s =
+      discardLoop c fuel (acc + g.size)
+        (St.incDiscarded c { s with mem := s.mem.writeWord g.off (enc 0 nx), sentinel := enc MAXU32 nx } g.size) := by
+  have hgl : g.off < TWO32 := by unfold MAXU32 TWO32 at *; omega
+  have h1 : wnext (enc MAXU32 g.off) = g.off := wnext_enc _ _ hgl
+  have h2 : wsize (enc MAXU32 g.off) = MAXU32 := wsize_enc _ _ hgl
+  have h3 : wsize (enc g.size nx) = g.size := wsize_enc _ _ hnx
+  have h4 : wnext (enc g.size nx) = nx := wnext_enc _ _ hnx
+  have hne : g.off ≠ MAXU32 := by omega
+  have hne0 : g.off ≠ 0 := by omega
+  have hgs : g.size ≠ 0 := by omega
+  rw [discardLoop]
+  simp only [hs, h1, h2, hsync, true_and, if_true]
+  rw [if_neg hne, if_neg hne0, readWord?_ok _ _ hb, hw]
+  simp only [pure_bind, h3, h4]
+  rw [if_neg hgs, casLoc_node_hit s g.off _ _ hb hw]
+  simp only [pure_bind, Bool.not_true, Bool.false_eq_true, if_false]
+  rw [casLoc_hdr_hit { s with mem := s.mem.writeWord g.off (enc 0 nx) } _ _ hs]
+  simp only [pure_bind, if_true]
+  rw [addU32_ok _ _ _ hadd]
+  simp only [pure_bind]
+
+theorem discardLoop_nil (c : Cfg) (s : St) (acc fuel : Nat) (hs : s.sentinel = enc MAXU32 MAXU32) :
+    discardLoop c (fuel + 1) acc s = pure (acc, s) := by
+  have h1 : wnext (enc MAXU32 MAXU32) = MAXU32 := wnext_enc _ _ maxu32_lt
+  have h2 : wsize (enc MAXU32 MAXU32) = MAXU32 := wsize_enc _ _ maxu32_lt
+  rw [discardLoop]
+  simp only [hs, h1, h2, and_self, if_true]
+
+@[simp] private theorem St.incDiscarded_mem (c : Cfg) (s : St) (n : Nat) : (s.incDiscarded c n).mem = s.mem := by
+  unfold St.incDiscarded; split <;> rfl
+@[simp] private theorem St.incDiscarded_sentinel (c : Cfg) (s : St) (n : Nat) : (s.incDiscarded c n).sentinel = s.sentinel := by
+  unfold St.incDiscarded; split <;> rfl
+@[simp] private theorem St.incDiscarded_allocated (c : Cfg) (s : St) (n : Nat) : (s.incDiscarded c n).allocated = s.allocated := by
+  unfold St.incDiscarded; split <;> rfl
+@[simp] private theorem St.incDiscarded_minSeg (c : Cfg) (s : St) (n : Nat) : (s.incDiscarded c n).minSeg = s.minSeg := by
+  unfold St.incDiscarded; split <;> rfl
+private theorem St.incDiscarded_discarded (c : Cfg) (s : St) (n : Nat) :
+    (s.incDiscarded c n).discarded = if c.ro then s.discarded else (s.discarded + n) % TWO32 := by
+  unfold St.incDiscarded; split <;> rfl
+
+theorem discardLoop_spec (c : Cfg) (l : List Seg) : ∀ (fuel acc : Nat) (s : St),
+    Chain s.mem l → s.sentinel = enc MAXU32 (hd l) →
+    (∀ g ∈ l, 1 ≤ g.off ∧ g.off < MAXU32 ∧ 1 ≤ g.size) →
+    NodesApart l → acc + (l.map (·.size)).sum < TWO32 → l.length + 1 ≤ fuel →
+    ∃ s', discardLoop c fuel acc s = .ok (acc + (l.map (·.size)).sum, s') ∧
+      s'.sentinel = enc MAXU32 MAXU32 ∧ s'.allocated = s.allocated ∧ s'.minSeg = s.minSeg ∧
+      s'.discarded = l.foldl (fun d g => if c.ro then d else (d + g.size) % TWO32) s.discarded ∧
+      s'.mem.size = s.mem.size ∧
+      (∀ i, (∀ g ∈ l, i < g.off ∨ g.off + 8 ≤ i) → s'.mem.rd i = s.mem.rd i) := by
+  induction l with
+  | nil =>
+    intro fuel acc s _ hs _ _ _ hf
+    cases fuel with
+    | zero => simp at hf
+    | succ fuel =>
+      exact ⟨s, discardLoop_nil c s acc fuel hs, hs, rfl, rfl, rfl, rfl, fun _ _ => rfl⟩
+  | cons g rest ih =>
+    intro fuel acc s hc hs hg hap hsum hf
+    cases fuel with
+    | zero => simp at hf
+    | succ fuel =>
+      obtain ⟨hg1, hg2, hg3⟩ := hg g List.mem_cons_self
+      have hrest : ∀ x ∈ rest, 1 ≤ x.off ∧ x.off < MAXU32 ∧ 1 ≤ x.size :=
+        fun x hx => hg x (List.mem_cons_of_mem _ hx)
+      have hnext : hd rest < TWO32 := hd_lt rest (fun x hx => (hrest x hx).2.1)
+      have hb := hc.1
+      have hw := hc.2.1
+      simp only [hd] at hs
+      simp only [List.map_cons, List.sum_cons, List.foldl_cons] at hsum ⊢
+      have hadd : acc + g.size < TWO32 := by omega
+      have hap' : NodesApart rest := (List.pairwise_cons.1 hap).2
+      have hlen : rest.length + 1 ≤ fuel := by simp at hf; omega
+      by_cases hsync : c.sync = true
+      · rw [discardLoop_step_sync c hsync s g (hd rest) acc fuel hs hg1 hg2 hb hw hnext hg3 hadd]
+        obtain ⟨s', e1, e2, e3, e4, e5, e6, e7⟩ := ih fuel (acc + g.size)
+          (St.incDiscarded c { s with mem := s.mem.writeWord g.off (enc 0 (hd rest)), sentinel := enc MAXU32 (hd rest) } g.size)
+          (by simp only [St.incDiscarded_mem]; exact Chain.writeWord rest _ _ hap.misses hc.2.2)
+          (by simp) hrest hap' (by omega) hlen
+        refine ⟨s', ?_, e2, ?_, ?_, ?_, ?_, ?_⟩
+        · rw [e1, Nat.add_assoc]
+        · simpa using e3
+        · simpa using e4
+        · rw [e5, St.incDiscarded_discarded]
+        · simpa using e6
+        · intro i hi
+          rw [e7 i (fun x hx => hi x (List.mem_cons_of_mem _ hx))]
+          simp only [St.incDiscarded_mem]
+          unfold Mem.writeWord Mem.writeLE
+          exact Mem.rd_update_out _ _ _ _ _ (by have := hi g List.mem_cons_self; omega)
+      · have hsync : c.sync = false := by simpa using hsync
+        rw [discardLoop_step_unsync c hsync s g (hd rest) acc fuel hs hg1 hg2 hb hw hnext hadd]
+        obtain ⟨s', e1, e2, e3, e4, e5, e6, e7⟩ := ih fuel (acc + g.size)
+          (St.incDiscarded c { s with sentinel := enc MAXU32 (hd rest) } g.size)
+          (by simp only [St.incDiscarded_mem]; exact hc.2.2)
+          (by simp) hrest hap' (by omega) hlen
+        refine ⟨s', ?_, e2, ?_, ?_, ?_, ?_, ?_⟩
+        · rw [e1, Nat.add_assoc]
+        · simpa using e3
+        · simpa using e4
+        · rw [e5, St.incDiscarded_discarded]
+        · simpa using e6
+        · intro i hi
+          rw [e7 i (fun x hx => hi x (List.mem_cons_of_mem _ hx))]
+          simp only [St.incDiscarded_mem]
+
+
+theorem nodesApart_of_wf {c : Cfg} {a : A} {lives : List Ext} (hw : WF c a lives) : NodesApart a.free := by
+  have hd := hw.disjoint
+  rw [List.pairwise_append] at hd
+  have h1 := hd.1
+  rw [List.pairwise_map] at h1
+  refine List.Pairwise.imp ?_ h1
+  intro x y hxy
+  unfold disj at hxy
+  simp only [Seg.ext, Seg.lo, Seg.hi, NODE] at hxy
+  omega
+
+theorem sum_sizes_le_allocated {c : Cfg} {a : A} {lives : List Ext} (hw : WF c a lives) :
+    (a.free.map (·.size)).sum ≤ a.allocated := by
+  have hd := hw.disjoint
+  rw [List.pairwise_append] at hd
+  have h1 := hd.1
+  rw [List.pairwise_map] at h1
+  have := sum_sizes_le a.free.length a.free (Nat.le_refl _) 0 a.allocated (Nat.zero_le _)
+    (by
+      intro g hg
+      have := (hw.segs g hg).2.2.2
+      simp only [Seg.hi, NODE] at this
+      omega) h1
+  omega
+
+/-- `discard_freelist` returns the abstract answer, empties the list, only writes node words of free segments -/
+theorem discardFreelist_refines (c : Cfg) (s : St) (free : List Seg) (lives : List Ext) (fuel : Nat)
+    (h : CInv c s free lives) (hfuel : free.length + 2 ≤ fuel) :
+    let r := (s.abs free).discardFreelist c
+    ∃ s', discardFreelist c s fuel = .ok (r.1, s') ∧ StepOK c s s' r.2 lives ∧ CInv c s' r.2.free lives := by
+  intro r
+  have hw := h.wf
+  have hwf' : WF c r.2 lives := discardFreelist_wf c (s.abs free) lives hw
+  have hsame : StepOK c s s (s.abs free) lives := ⟨rfl, rfl, fun _ _ _ _ _ => rfl, fun _ _ => rfl⟩
+  by_cases hro : c.ro = true
+  · have hr : r = (.error .readOnly, s.abs free) := by
+      show (s.abs free).discardFreelist c = _
+      unfold A.discardFreelist; rw [if_pos hro]
+    rw [hr]
+    exact ⟨s, by unfold discardFreelist; rw [if_pos hro]; rfl, hsame, h⟩
+  · by_cases hk : c.kind = .none
+    · have hr : r = (.ok 0, s.abs free) := by
+        show (s.abs free).discardFreelist c = _
+        unfold A.discardFreelist; rw [if_neg hro, hk]
+      rw [hr]
+      exact ⟨s, by unfold discardFreelist; rw [if_neg hro, hk]; rfl, hsame, h⟩
+    · have hr : r = (.ok (free.map (·.size)).sum, { s.abs free with free := [], discarded :=
+          (free.foldl (fun d g => if c.ro then d else (d + g.size) % TWO32) s.discarded) }) := by
+        show (s.abs free).discardFreelist c = _
+        unfold A.discardFreelist; rw [if_neg hro]
+        split
+        · rename_i hk'; exact absurd hk' hk
+        · rfl
+      have hsum := sum_sizes_le_allocated hw
+      have hcap := h.capGuard
+      have hhi : s.allocated ≤ s.cap := hw.hi
+      have hsegs : ∀ g ∈ free, 1 ≤ g.off ∧ g.off < MAXU32 ∧ 1 ≤ g.size := by
+        intro g hg
+        obtain ⟨_, h2, h3, h4⟩ := hw.segs g hg
+        have := hw.lo
+        simp only [Seg.hi, NODE, St.abs] at h4
+        unfold MAXU32; unfold TWO32 at hcap
+        exact ⟨by omega, by omega, h2⟩
+      obtain ⟨s', e1, e2, e3, e4, e5, e6, e7⟩ := discardLoop_spec c free fuel 0 s h.chain h.sent hsegs
+        (nodesApart_of_wf hw) (by simp only [St.abs] at hsum; unfold TWO32 at *; omega) (by omega)
+      have habs : s'.abs [] = r.2 := by
+        rw [hr]
+        simp only [St.abs, St.cap, e3, e4, e5, e6]
+      have hfree : r.2.free = [] := by rw [hr]
+      have hci : CInv c s' [] lives := by
+        refine ⟨?_, trivial, e2, ?_, ?_, h.retriesOK⟩
+        · rw [habs]; exact hwf'
+        · show s'.mem.size + 8192 ≤ TWO32
+          rw [e6]; exact hcap
+        · rw [e4]; exact h.minSegLt
+      refine ⟨s', ?_, ⟨?_, e6, ?_, ?_⟩, ?_⟩
+      · unfold discardFreelist
+        rw [if_neg hro]
+        split
+        · rename_i hk'; exact absurd hk' hk
+        · rw [e1, hr]; simp only [Nat.zero_add]; rfl
+      · rw [hfree]; exact habs
+      · intro e he i hi1 hi2
+        apply e7
+        intro g hg
+        have := misses_of_live hw e he i (i + 1) hi1 (by omega) g hg
+        omega
+      · intro i hi
+        apply e7
+        intro g hg
+        have := (hw.segs g hg).2.2.1
+        omega
+      · rw [hfree]; exact hci
 
 end Rarena
